@@ -113,4 +113,12 @@ def setup(mods):
     MON.install()
     for k in ("gb", "gw", "gboot", "gio", "gsock", "multi", "rsync", "xspec"):
         MON.register_module(mods[k])
+    # the channel table is a weakref.WeakValueDictionary whose methods are Python code: iterating it while another
+    # thread pops from it is a real interleaving, so its methods are preemptable too (it takes no real lock)
+    import weakref
+    for nm in ("values", "itervaluerefs", "valuerefs", "keys", "items", "__iter__", "get", "pop", "__getitem__",
+               "__setitem__", "__len__", "__contains__", "copy"):
+        f = weakref.WeakValueDictionary.__dict__.get(nm)
+        if f is not None and hasattr(f, "__code__"):
+            MON.register_code(f.__code__)
     return MON
